@@ -300,7 +300,7 @@ func (r *Raft) onSnapshotTaken(t snapTaken) {
 		if nowCompact > r.log.PrevIndex() {
 			_ = r.compactLog(nowCompact)
 		}
-		if canCompact > nowCompact {
+		if r.state == Leader && canCompact > r.ldr.removeLTE {
 			// notify repls with new logView
 			r.ldr.removeLTE = canCompact
 			r.ldr.notifyFlr(false)
